@@ -1121,6 +1121,14 @@ def std_summary(tb, path, upath, fr, args):
                 return ("asptr", a0[2][0])
             return ("ptrop", "add", ("asptr", a0[2][0]), lo, es if es is not None else ("sizeof", g[0] if g else "?"))
         return ("asptr", a0)
+    if path in ("core::ptr::eq", "core::ptr::addr_eq") and len(args) == 2:
+        # address comparison (for thin pointers: pointer equality); a fat pointer built over p has p's address
+        def thin(t_):
+            while isinstance(t_, tuple) and t_ and t_[0] == "fatptr":
+                t_ = t_[1]
+            return t_
+        if path == "core::ptr::addr_eq" or all(not str(g_).startswith(("[", "dyn ", "str")) for g_ in g[:1]):
+            return ("bin", "Eq", thin(args[0]), thin(args[1]), "usize")
     if path == "core::slice::<impl [T]>::is_empty":
         return ("bin", "Eq", ("len", args[0]), C(0), "usize")
     if path == "core::slice::<impl [T]>::split_at" and len(args) == 2:
